@@ -1,0 +1,23 @@
+//go:build verif
+
+package tracker
+
+import "time"
+
+// This file only exists under the "verif" build tag.  It lets the
+// verification harness move a tracker's clock: the announce discipline
+// (five minutes, announced interval) is a property of sequences of calls
+// over time, and announces use real sockets, so a fake clock cannot be
+// supplied from outside.
+
+// VerifShift makes the tracker believe that d more time has passed since
+// its last announce attempt.
+func (tracker *HTTP) VerifShift(d time.Duration) {
+	tracker.time = tracker.time.Add(-d)
+}
+
+// VerifShift makes the tracker believe that d more time has passed since
+// its last announce attempt.
+func (tracker *UDP) VerifShift(d time.Duration) {
+	tracker.time = tracker.time.Add(-d)
+}
